@@ -345,6 +345,13 @@ HasInternal(s) == \E n \in RpcNames(g) \ Listed : SvcOf(g, n) = s
 Prefix(s) == IF Sel = "internal" /\ HasInternal(s) /\ Mutant # "no_base" THEN "Base" ELSE ""
 Clients   == UNION {{Prefix(s) \o s \o "Client", Prefix(s) \o s \o "AsyncClient"} : s \in KeptSvcs}
 
+\* "the kept RPCs behave as in the full library": every RPC that is part of the library - in internal mode also the unlisted
+\* ones, which are still there under `_name` - must be callable under that name and be observed exactly as the same RPC of
+\* the full library (wire path, request, returned value; for an LRO also result() and metadata of the operation)
+MustBehave == IF Mutant = "internal_not_exercised" THEN Public ELSE KeptRpcs
+CallName(n) == IF n \in Internal THEN "_" ELSE ""        \* prefix of the client method through which RPC n is reached
+CallOK(n, underscored, same) == n \in MustBehave /\ (underscored <=> CallName(n) = "_") /\ same
+
 \* a types module per proto file: a file that keeps at least one message OR enum must be emitted (the modules of the kept
 \* types that refer to it import it); a file that keeps nothing is not emitted (the file of the services may be)
 ReqFiles  == IF Mutant = "files_ignore_enums" THEN {FileOf(g, t) : t \in Required \cap g.msgs} ELSE {FileOf(g, t) : t \in Required}
@@ -410,6 +417,13 @@ Inv_Internal == Closed /\ Sel = "internal" =>
                   /\ Required = Types(g) /\ KeptRpcs = RpcNames(g) /\ KeptSvcs = Svcs(g)
                   /\ Public = Listed /\ Internal = RpcNames(g) \ Listed
                   /\ \A s \in Svcs(g) : (\E n \in Internal : SvcOf(g, n) = s) <=> (Prefix(s) = "Base")
+\* ... and an internal RPC is still an RPC of the library: every RPC of the full surface stays callable, the unlisted ones
+\* under the underscored name, with the behaviour of the full library (an LRO whose service has no listed LRO included)
+Inv_InternalStillWorks == Closed /\ Sel = "internal" =>
+                            /\ MustBehave = RpcNames(g)
+                            /\ \A n \in RpcNames(g) : (CallName(n) = "_") <=> (n \notin Listed)
+                            /\ \A n \in RpcNames(g) : CallOK(n, n \notin Listed, TRUE)
+Inv_Behave == Closed => MustBehave = Public \cup Internal /\ Listed \cap RpcNames(g) \subseteq MustBehave
 \* the emitted modules are closed under "is imported by": whatever a kept type refers to lives in an emitted module, also when
 \* a file keeps nothing but enums; without pruning every file is emitted
 Inv_Files == Closed => /\ ReqFiles \subseteq PermFiles
@@ -423,11 +437,11 @@ Inv_Off == Closed /\ Sel = "off" => Required = Types(g) /\ Public = RpcNames(g) 
 Case == [graph |-> g, entries |-> entries, listed |-> Listed, mode |-> mode, sel |-> Sel,
          expect |-> IF phase = "failed"
                     THEN [fail |-> TRUE, reach |-> {}, reachUp |-> {}, files |-> {}, filesUp |-> {}, enumOnlyFiles |-> {}, public |-> {}, internal |-> {}, svcs |-> {}, clients |-> {},
-                          orphans |-> {}, taint |-> {}, pollHidden |-> {}, why |-> {}]
+                          orphans |-> {}, taint |-> {}, pollHidden |-> {}, mustBehave |-> {}, why |-> {}]
                     ELSE [fail |-> FALSE, reach |-> Required, reachUp |-> Permitted, files |-> ReqFiles, filesUp |-> PermFiles,
                           enumOnlyFiles |-> {f \in ReqFiles : \A t \in Required : FileOf(g, t) = f => t \in g.enums}, public |-> Public, internal |-> Internal,
                           svcs |-> KeptSvcs, clients |-> Clients, orphans |-> {[t |-> x, kind |-> KindOf(x)] : x \in Orphans}, taint |-> Taint,
-                          pollHidden |-> PollHidden,
+                          pollHidden |-> PollHidden, mustBehave |-> MustBehave,
                           why |-> IF Sel = "prune" THEN {[t |-> y, kinds |-> Why(y)] : y \in Required} ELSE {}]]
 Emit == phase \in {"done", "failed"} => PrintT(<<"CASE", ToJson(Case)>>)
 =============================================================================
